@@ -17,6 +17,7 @@ pub enum SeekFrom { Start(u64), End(i64), Current(i64) }
 pub ghost struct Stream { pub bytes: Seq<u8>, pub pos: nat }
 
 /// overwrite-at-cursor, extending at the end (std::io::Cursor<Vec<u8>> write)
+#[verifier::opaque]
 pub open spec fn splice(b: Seq<u8>, pos: nat, d: Seq<u8>) -> Seq<u8> {
     if pos + d.len() >= b.len() {
         b.subrange(0, pos as int) + d
@@ -322,6 +323,7 @@ pub broadcast proof fn lemma_wr_wr(s: Stream, a: Seq<u8>, b: Seq<u8>)
     requires s.wf(),
     ensures #[trigger] wr(wr(s, a), b) == wr(s, a + b),
 {
+    reveal(splice);
     assert(wr(wr(s, a), b).bytes =~= wr(s, a + b).bytes);
 }
 
@@ -330,8 +332,26 @@ pub proof fn lemma_backpatch(s: Stream, a: Seq<u8>, b: Seq<u8>, a2: Seq<u8>)
     requires s.wf(), a.len() == a2.len(),
     ensures
         wr(Stream { bytes: wr(s, a + b).bytes, pos: s.pos }, a2).bytes == wr(s, a2 + b).bytes,
+        wr(s, a + b).bytes.len() >= s.pos + a.len() + b.len(),
 {
+    reveal(splice);
     assert(wr(Stream { bytes: wr(s, a + b).bytes, pos: s.pos }, a2).bytes =~= wr(s, a2 + b).bytes);
 }
 
-pub broadcast group group_binary_stream { lemma_take_n_concat, lemma_wr_wr, axiom_utf8_roundtrip, axiom_utf8_dec_sound }
+pub broadcast proof fn lemma_wr_len(s: Stream, d: Seq<u8>)
+    requires s.wf(),
+    ensures (#[trigger] wr(s, d)).bytes.len() == (if s.pos + d.len() >= s.bytes.len() { s.pos + d.len() } else { s.bytes.len() }),
+{
+    reveal(splice);
+}
+
+/// writing at the end of the stream appends
+pub proof fn lemma_wr_at_end(s: Stream, d: Seq<u8>)
+    requires s.pos == s.bytes.len(),
+    ensures wr(s, d).bytes == s.bytes + d, wr(s, d).pos == wr(s, d).bytes.len(),
+{
+    reveal(splice);
+    assert(wr(s, d).bytes =~= s.bytes + d);
+}
+
+pub broadcast group group_binary_stream { lemma_take_n_concat, lemma_wr_wr, lemma_wr_len, axiom_utf8_roundtrip, axiom_utf8_dec_sound }
